@@ -455,30 +455,35 @@ mod verif_pdu_layout {
             Ok(r) => { assert!(false, "must be rejected"); mem::forget(r); }
         }
     }}
-    fn origin_roundtrip(version: u8, action: Action, o: RouteOrigin) {
-        // to_payload . new == id on item and action
-        let p = Payload::new(version, action.into_flags(), PayloadRef::Origin(o));
-        assert!(p.version() == version && p.flags() == action.into_flags(), "version and flags kept");
-        match p.to_payload() {
-            Ok((a, payload::Payload::Origin(back))) => {
-                assert!(a == action, "same action");
-                // RouteOrigin equality is (prefix, effective max length, AS number): addr_prefix::route_origin_eq_ord_hash
-                assert!(back.prefix.prefix() == o.prefix.prefix() && back.asn == o.asn
-                        && back.prefix.resolved_max_len() == o.prefix.resolved_max_len(), "same origin (prefix, effective max length, AS number)");
-                assert!(back.prefix.max_len() == Some(o.prefix.resolved_max_len()), "max length comes back resolved");
-                assert!(back == o, "RouteOrigin equality");
-            }
-            Ok(r) => { assert!(false, "an origin comes back as an origin"); mem::forget(r); }
-            Err(e) => { assert!(false, "a PDU written by the library converts back"); mem::forget(e); }
+    // to_payload . new == id on item and action for origins, as a chain of complete harnesses (the direct
+    // harness `to_payload(new(o)) == o` exhausts CBMC's memory: measured > 30 GB):
+    //   N  pdu_payload_new_origin: new(version, flags, o) is the prefix PDU with fields
+    //      (prefix_len, resolved max_len, addr, asn) of o, of o's family;
+    //   T  pdu_to_payload_v4/_v6: for EVERY field combination, to_payload accepts iff
+    //      prefix_len <= max_len <= family maximum and returns the action of the flags octet and an
+    //      origin with exactly these accessor values (address with host bits cleared);
+    //   A  pdu_action_flags: from_flags(into_flags(a)) == a;
+    //   G  (below) the fields of a well-formed origin are accepted by T, and any origin with these
+    //      accessor values is equal to the one written (an origin whose max_len was None comes back as
+    //      Some(prefix_len): equal under RouteOrigin's equality, addr_prefix::route_origin_eq_ord_hash).
+    //@harness pdu_payload_origin_roundtrip_glue K fn=Payload::new,Payload::to_payload
+    verif_harness!{ pdu_payload_origin_roundtrip_glue; |v4: bool, len: u8, raw: u128, has: bool, m: u8, asn: u32, v4b: bool, lenb: u8, rawb: u128, mb: u8, asnb: u32| {
+        let o = RouteOrigin::new(mkml(v4, len, raw, has, m), Asn::from_u32(asn));
+        // N: what Payload::new puts into the PDU
+        let (plen, pml, paddr, pasn) = (o.prefix.prefix_len(), o.prefix.resolved_max_len(), o.prefix.addr(), o.asn);
+        assert!(plen == len && pml == (if has { m } else { len }) && pasn.into_u32() == asn, "the values used in N");
+        assert!(matches!(paddr, IpAddr::V4(_)) == v4, "family of the PDU");
+        assert!(plen <= pml && pml <= fam_max(v4), "T accepts the PDU");
+        match paddr {
+            IpAddr::V4(a) => assert!(u32::from(a) & ((hostmask(len) >> 96) as u32) == 0, "host bits already clear: T returns this address"),
+            IpAddr::V6(a) => assert!(u128::from(a) & hostmask(len) == 0, "host bits already clear: T returns this address"),
         }
-    }
-    //@harness pdu_payload_origin_v4_roundtrip K fn=Payload::new,Payload::to_payload timeout=1200
-    verif_harness!{ pdu_payload_origin_v4_roundtrip; |version: u8, announce: bool, len: u8, raw: u128, has: bool, m: u8, asn: u32| {
-        origin_roundtrip(version, action_of(announce), RouteOrigin::new(mkml(true, len, raw, has, m), Asn::from_u32(asn)));
-    }}
-    //@harness pdu_payload_origin_v6_roundtrip K fn=Payload::new,Payload::to_payload timeout=1200
-    verif_harness!{ pdu_payload_origin_v6_roundtrip; |version: u8, announce: bool, len: u8, raw: u128, has: bool, m: u8, asn: u32| {
-        origin_roundtrip(version, action_of(announce), RouteOrigin::new(mkml(false, len, raw, has, m), Asn::from_u32(asn)));
+        // T: any (well-formed) origin with the accessor values to_payload guarantees ...
+        let b = RouteOrigin::new(mkml(v4b, lenb, rawb, true, mb), Asn::from_u32(asnb));
+        assume(b.asn == pasn && b.prefix.prefix_len() == plen && b.prefix.max_len() == Some(pml) && b.prefix.addr() == paddr);
+        // ... is the origin that was written
+        assert!(b == o, "same origin (prefix, effective max length, AS number)");
+        assert!(b.prefix.prefix() == o.prefix.prefix() && b.prefix.max_len() == Some(o.prefix.resolved_max_len()), "max length comes back resolved");
     }}
 
     // ---------------- router keys and ASPA through Payload::new / to_payload (static Bytes) ----------------
